@@ -97,6 +97,44 @@ def run_scenario(sc, chooser=None, seed=0, max_steps=8000, horizon_ticks=1400):
             self.owner = None
             if s is not None:
                 s.emit("rel", "TL", int(round(tillmod.Till.next_ping * TICK)), len(tillmod.Till.new_timers))
+                if not s.abort:
+                    s.yield_point(("after-rel",))     # a pre-emption point right after the release (before the thread's next statement)
+
+    # the daemon's unlocked `Till.next_ping = min(Till.next_ping, sorted_timers[0].timestamp)`: the attribute access on the
+    # TodoItem sits between the read and the write, so it is where the read is logged, the thread can be pre-empted, and the
+    # write is logged (its value is filled in when the thread reaches its next yield point: nothing else runs in between).
+    # Creating a TodoItem is a pre-emption point too (between loading Till.new_timers and appending to it).
+    OrigTodo = tillmod.TodoItem
+    st["pending_wping"] = None
+
+    class TodoItem(OrigTodo):
+        __slots__ = ()
+
+        def __new__(cls, timestamp, ref):
+            s = ds.CUR
+            if s is not None and s.me() is not None and not s.abort:
+                s.yield_point(("todo",))
+            return OrigTodo.__new__(cls, timestamp, ref)
+
+        @property
+        def timestamp(self):
+            s = ds.CUR
+            if s is not None and s.me() is not None and not s.abort and sys._getframe(1).f_code.co_name == "daemon":
+                s.emit("rping", int(round(tillmod.Till.next_ping * TICK)))
+                s.yield_point(("wping",))
+                s.emit("wping", None)
+                st["pending_wping"] = len(s.events) - 1
+            return self[0]
+
+    tillmod.TodoItem = TodoItem
+
+    def fill_wping(s, vt):
+        k = st["pending_wping"]
+        if k is not None:
+            ev = s.events[k]
+            s.events[k] = ev[:2] + (int(round(tillmod.Till.next_ping * TICK)),)
+            st["pending_wping"] = None
+    sched.on_step = fill_wping
 
     tillmod.Till.locker = TillLock()
     sched.tag(tillmod.Till.locker, "TL")
@@ -176,6 +214,7 @@ def run_scenario(sc, chooser=None, seed=0, max_steps=8000, horizon_ticks=1400):
         outcome = sched.run()
     finally:
         tillmod.Signal = old_factory
+        tillmod.TodoItem = OrigTodo
         signals.Signal.__init__ = orig_sig_init
         tillmod.Till.locker = ds.SchedLock()
     stuck = sorted(int(vt.name[1:]) for vt in sched.stuck if vt.name.startswith("t") and vt.name != "t0")
@@ -254,6 +293,10 @@ def to_lines(events):
                     lines.append("step %s acq" % t)
                 else:
                     lines.append("step %s rel %d %d" % (t, ev[3], ev[4]))
+        elif kind == "rping":
+            lines.append("step %s rPing %d" % (t, ev[2]))
+        elif kind == "wping":
+            lines.append("step %s wPing %s" % (t, ev[2]))
         elif kind == "sleep":
             lines.append("step %s sleep %d" % (t, ev[2]))
         elif kind == "wake":
